@@ -8,7 +8,10 @@ import TantivyModel.Proofs.GrammarCharsPrintList
 import TantivyModel.Proofs.GrammarCharsNested
 import TantivyModel.Proofs.GrammarCharsBoost
 import TantivyModel.Proofs.GrammarCharsText
+import TantivyModel.Proofs.GrammarCharsLenientTotal
+import TantivyModel.Proofs.GrammarCharsLenientLeaf
 import TantivyModel.Proofs.GrammarFoldSafe
+import TantivyModel.Proofs.GrammarFoldSafeN
 import TantivyModel.Model.Grammar.Agree
 /-!
 # C16 — The query parser is total and implements its documented grammar
@@ -289,6 +292,29 @@ theorem C16_chars_total (guard : Bool) (s : Str) :
 theorem C16_strict_never_panics_with_guard (s : Str) : parseStrictWith true s ≠ .panic :=
   parseStrictWith_guarded_ne_panic s
 
+/-- **the strict grammar of the source at hand never panics**: the guard is not a hypothesis here —
+    it is the constant the extractor reads from `literal` in query_grammar.rs
+    (`GRAMMAR_LITERAL_GUARDS_FIELDLESS_EXISTS`); a source without the guard makes this theorem fail
+    to build -/
+theorem C16_strict_never_panics (s : Str) : parseStrict s ≠ .panic :=
+  parseStrict_ne_panic s
+
+/-- once `set_infallible` has its progress guard, the lenient grammar has no endless loop left:
+    for every text (by induction over the four mutually recursive parsers and the set loop) -/
+theorem C16_lenient_never_loops_with_guard (s : Str) : parseLenientWith true s ≠ .diverges :=
+  parseLenientWith_guarded_ne_diverges s
+
+/-- **the lenient grammar of the source at hand never loops** (the guard is the extracted constant
+    `GRAMMAR_SET_LOOP_GUARD`, read from `set_infallible`) -/
+theorem C16_lenient_never_loops (s : Str) : parseLenient s ≠ .diverges :=
+  parseLenient_ne_diverges s
+
+/-- without the guard `IN [` followed by U+0085 loops forever (the earlier finding), with it the
+    parser returns -/
+example : astInf false 6 ['I', 'N', ' ', '[', Char.ofNat 0x85] = .diverges
+    ∧ (match astInf true 6 ['I', 'N', ' ', '[', Char.ofNat 0x85] with | .diverges => false | .ok _ _ _ => true) = true :=
+  ⟨by rfl, by rfl⟩
+
 /-- without the guard `+ *` panics (the known finding), with it `+ *` is a syntax error -/
 theorem C16_strict_panic_witness :
     pAst false 4 ['+', ' ', '*'] = .panic ∧ pAst true 4 ['+', ' ', '*'] = .fail := ⟨rfl, rfl⟩
@@ -305,9 +331,9 @@ theorem C16_strict_panic_witness :
    prefixes, bracketed and elastic ranges, sets, `*`, `name:*`, `NOT x`.
    (5) boosts on words, phrases, parenthesised lists, bracketed ranges and sets, and `name:( … )`
    groups (`C16_print_parse_boosted`). (6) compositions with the fold-layer theorems: from the text
-   of an AND/OR chain resp. a marker list to its meaning (`C16_text_precedence`, `C16_text_markers`).
-   Still open in the ∀ form: boosts after elastic ranges, `*`, `name:*` and `NOT x`, escapes inside
-   unquoted words, single-quoted phrases, regex leaves, negative numbers, `*` as a range bound, blanks inside elastic ranges, unicode blanks as separators. -/
+   of an AND/OR chain resp. a marker list to its meaning (`C16_text_precedence`, `C16_text_precedence_markers`, `C16_text_markers`).
+   Still open in the ∀ form: escapes inside unquoted words, regex leaves, negative numbers, boosts
+   after `NOT (group)`, `*` as a range bound, blanks inside elastic ranges, unicode blanks as separators. -/
 /-- **print/parse at leaf level, for all words**: the strict parser (with or without the guard)
     reads a word of ASCII letters and digits that is not `OR`/`AND`/`NOT`/`IN` as the unfielded,
     unquoted literal with exactly that text -/
@@ -355,9 +381,11 @@ theorem C16_print_parse_nested (guard : Bool) (lead : Nat) (occ : Option Occur) 
 
 /-- **print/parse with boosts**: the items of a list (at the top level and inside parenthesised
     lists, to any depth) may carry a boost `^digits[.digits]` when the boosted operand is a plain
-    word, a quoted phrase (any characters, optional slop / prefix star), either with a field prefix,
-    a parenthesised list, a bracketed range or a set, the latter two also with a field prefix
-    (`WFB true`); every other item is a well-formed operand of `C16_print_parse_nested`,
+    word, a double- or single-quoted phrase (any characters, optional slop / prefix star), either with
+    a field prefix, `*`, `name:*`, a parenthesised list, a bracketed range or a set, the latter two
+    also with a field prefix, or `NOT x` of such a leaf (`BoostKind`; the boost then applies to the
+    `NOT` clause) (`WFB true`); single-quoted phrases `'…'` (printed with `\'` and `\\` escapes) are
+    operands as well; every other item is a well-formed operand of `C16_print_parse_nested`,
     a parenthesised list of such items, `name:( … )` of such items (read as the list's tree with
     `set_default_field name`; it may be boosted too), or `NOT` of an unboosted one (`WFB false`). The strict parser
     reads the printed text as `rewrite_ast` of the tree the structure denotes, in which a boosted
@@ -436,6 +464,57 @@ theorem C16_text_precedence {T : Type} (guard : Bool) (lead k : Nat) (o : Opd) (
       exact hdr x hx)
     simpa [List.map_map, Function.comp_def] using this
 
+/-- **from the text to the documents, chains with `-` operands**: for every layout of
+    `[-]x₀ op₁ [-]x₁ … opₙ [-]xₙ` (`AND`/`OR` keywords, `n ≥ 1`, items of `C16_print_parse_boosted`)
+    the strict parser accepts the text and the tree it returns means the OR over the maximal
+    AND-runs, where a run holds when it has an unmarked operand, all its unmarked operands hold and
+    none of its `-` operands holds (`runsN`, the reading of `C16_precedence_markers`: an operand
+    bound to AND keeps MUST_NOT inside its run, a lone `-x` between ORs contributes nothing) —
+    whenever the operands resolve and `rewrite_ast` is safe on the operands' own trees. -/
+theorem C16_text_precedence_markers {T : Type} (guard : Bool) (lead k : Nat) (n0 : Bool) (o : Opd)
+    (nops : List (BinOp × Bool × Opd × Nat × Nat)) (hne : nops ≠ [])
+    (ho : ∃ b, WFB b o) (hm : ∀ x ∈ nops, ∃ b, WFB b x.2.2.1)
+    (m : Mode) (res : CLeaf → LAst T) (v : T → Bool)
+    (hd0 : isDead (toLogical m res o.leaf) = false)
+    (hdr : ∀ x ∈ nops, isDead (toLogical m res x.2.2.1.leaf) = false)
+    (hs0 : safeWith m false o.leaf = true)
+    (hsr : ∀ x ∈ nops, safeWith m false x.2.2.1.leaf = true) :
+    ∃ t, parseStrictWith guard (printList lead (negMark n0) o (nopItems nops) k []) = .tree t
+      ∧ semAst m res v t
+        = runsN (!n0) (litv n0 (semAst m res v o.leaf))
+            (nops.map fun x => (x.1, x.2.1, semAst m res v x.2.2.1.leaf)) := by
+  have hsafe : safeWith m false (listTree (negMark n0) o (nopItems nops)) = true := by
+    rw [listTree_chainN n0 o nops hne, lenientFold_map_rawOf _ (by rfl)]
+    exact chainN_safe m n0 o.leaf _ hs0 (by
+      intro y hy
+      simp only [List.mem_map] at hy
+      obtain ⟨x, hx, rfl⟩ := hy
+      exact hsr x hx)
+  refine ⟨rewrite (listTree (negMark n0) o (nopItems nops)), ?_, ?_⟩
+  · refine C16_print_parse_boosted guard lead (negMark n0) o (nopItems nops) k ho ?_
+    intro it hi
+    simp only [nopItems, List.mem_map] at hi
+    obtain ⟨x, hx, rfl⟩ := hi
+    exact hm x hx
+  · rw [C16_rewrite_preserves_sem m res v _ hsafe, listTree_chainN n0 o nops hne]
+    have := C16_precedence_markers m res v n0 o.leaf (nops.map fun x => (x.1, x.2.1, x.2.2.1.leaf)) hd0 (by
+      intro y hy
+      simp only [List.mem_map] at hy
+      obtain ⟨x, hx, rfl⟩ := hy
+      exact hdr x hx)
+    simpa [List.map_map, Function.comp_def] using this
+
+/-- `a AND -b  OR 'c d'`: the layout and the operands of such a chain (the last one a single-quoted phrase) -/
+example :
+    let nops : List (BinOp × Bool × Opd × Nat × Nat) :=
+      [(.and, true, wordOpd ['b'], 0, 0), (.or, false, phraseSOpd ['c', ' ', 'd'] .none, 1, 0)]
+    printList 0 (negMark false) (wordOpd ['a']) (nopItems nops) 0 []
+      = ['a', ' ', 'A', 'N', 'D', ' ', '-', 'b', ' ', ' ', 'O', 'R', ' ', '\'', 'c', ' ', 'd', '\'']
+    ∧ safeWith .orDefault false (phraseSOpd ['c', ' ', 'd'] .none).leaf = true
+    ∧ WFB false (phraseSOpd ['c', ' ', 'd'] .none)
+    ∧ runsN (!false) (litv false true) [(.and, true, false), (.or, false, false)] = true := by
+  exact ⟨by decide, rfl, .phraseS _ _ trivial, rfl⟩
+
 /-- **from the text to the documents, marker lists**: for every layout of `[+|-]x₀ [+|-]x₁ … [+|-]xₙ`
     (juxtaposed, `n ≥ 1`, every `xᵢ` an item of `C16_print_parse_boosted` whose tree is a leaf: a
     word, phrase, range, set, `*`, `name:*`, with or without a field prefix) the strict parser accepts
@@ -487,6 +566,18 @@ theorem C16_chain_rewrite_safe [DecidableEq L] (m : Mode) (res : L → LAst T) (
 
 example : safeWith .orDefault false
     (lenientFold ((chainFrom none (.leaf 1 : Ast Nat) [(.and, .leaf 2), (.or, .leaf 3)]).map rawOf)).1 = true := rfl
+
+/-- the same for chains whose operands carry `-` (entries `NOT x` under OR are singleton clauses
+    below an explicit SHOULD, so nothing is unwrapped with a changed occur either) -/
+theorem C16_chain_markers_rewrite_safe [DecidableEq L] (m : Mode) (n0 : Bool) (a0 : Ast L)
+    (rest : List (BinOp × Bool × Ast L)) (h0 : safeWith m false a0 = true)
+    (hr : ∀ x ∈ rest, safeWith m false x.2.2 = true) :
+    safeWith m false (lenientFold ((chainFromN none n0 a0 rest).map rawOf)).1 = true := by
+  rw [lenientFold_map_rawOf _ (by rfl)]
+  exact chainN_safe m n0 a0 rest h0 hr
+
+example : safeWith .orDefault false
+    (lenientFold ((chainFromN none false (.leaf 1 : Ast Nat) [(.or, true, .leaf 2), (.and, false, .leaf 3)]).map rawOf)).1 = true := rfl
 
 /-- `a AND b  OR c`: the hypotheses hold (words resolve, `rewrite_ast` is safe on the leaves) -/
 example :
@@ -652,6 +743,18 @@ example : pAst false 8 ['f', ':', '(', 'a', ' ', 'b', ')'] = .ok (.clause [(none
 
 The harness compares `parseLenient` with the real `parse_query_lenient` (tree and number of
 errors) on every generated string, and evaluates the statement below on every string. -/
+
+/-- **strict and lenient agree at leaf level, for all words**: the lenient grammar (with or without
+    its loop guard) reads every word of ASCII letters and digits that is not a keyword as the strict
+    grammar does (`C16_print_parse_leaf`) — the same tree and no error. The ∀ part of
+    `C16_lenient_agrees_chars` proved so far; by step lemmas through `wordInfChars`, `wordInf`,
+    `simpleTermInf`, `termOrPhraseInf`, `literalNoGroupInf`, `leafInf`, `operandInf`, `sepLoop`,
+    `astInf`. -/
+theorem C16_lenient_agrees_leaf (gs gl : Bool) (w : Str) (h : PlainWord w) :
+    ∃ t, parseStrictWith gs w = .tree t ∧ parseLenientWith gl w = .tree t 0 :=
+  ⟨_, parseStrictWith_plain gs w h, parseLenientWith_plain gl w h⟩
+
+example : featureFree ['a', 'b', 'c'] = true ∧ PlainWord ['a', 'b', 'c'] := ⟨rfl, plainWord_abc⟩
 
 /- Full statement (not proved; evaluated by the harness on every generated text — real parsers
    and Lean models — as the executable predicate `agreesOn`):
